@@ -283,6 +283,51 @@ def check_ast_of(ctx, doc, case):
     ctx.count('ast', 'mirrors %s tree' % case['token_set'])
 
 
+def snapshot(tok):
+    """Everything a token carries (all instance attributes with plain values, the header row, the children, in order)."""
+    attrs = []
+    for k, v in sorted(vars(tok).items()):
+        if k in ('_children', '_parent', 'children', 'parent', 'header'):
+            continue
+        if v is None or isinstance(v, (str, int, float, bool)) or (isinstance(v, (tuple, list)) and all(x is None or isinstance(x, (str, int, float, bool)) for x in v)):
+            attrs.append((k, repr(v)))
+    node = [type(tok).__name__, attrs]
+    hdr = getattr(tok, 'header', None) if type(tok).__name__ == 'Table' else None
+    node.append(snapshot(hdr) if hdr is not None else None)
+    kids = tok.children
+    node.append([snapshot(c) for c in kids] if kids is not None else None)
+    return node
+
+
+RENDER_OPTS = {'Html': [{}], 'Markdown': [{}, {'normalize_whitespace': True}, {'max_line_length': 20}], 'LaTeX': [{}], 'XWiki20': [{}]}
+
+
+def check_render_leaves_tree(ctx, doc, ts, case):
+    """Rendering is a walk over the tree, not an edit of it: after the token set's own renderer has rendered the document (every
+    option set), each token carries what it carried before and lists the children it listed before - the generic views
+    (traverse, AST) of a tree that has been rendered are views of the tree that was parsed."""
+    from .. import tree as _tree
+    before = snapshot(doc)
+    cls = mt.renderer_class(ts)
+    for opts in RENDER_OPTS[ts]:
+        try:
+            try:
+                with cls(**opts) as r:
+                    r.render(doc)
+            finally:
+                mt.reset()
+        except Exception as e:  # noqa  (C01's business; the tree is compared all the same)
+            ctx.count('ambient', 'C01:' + mt.exc_site(e))
+        after = snapshot(doc)
+        if after != before:
+            import re
+            where = _tree.first_diff(before, after) or 'tokens differ'
+            ctx.violation('render-changes-tree', '%s%s: %s' % (ts, ' ' + json.dumps(opts, sort_keys=True) if opts else '', re.sub(r"'[^']*'|\d+", '_', where)[:80]),
+                          dict(case, view='after-render'), where=where)
+            return
+        ctx.count('render', 'tree unchanged by %s%s' % (ts, ' ' + json.dumps(opts, sort_keys=True) if opts else ''))
+
+
 def check(ctx, text, source):
     install()
     for ts in TOKEN_SETS:
@@ -317,6 +362,7 @@ def check(ctx, text, source):
         check_traverse(ctx, doc, case)
         if ts is not None:
             check_ast_of(ctx, doc, case)
+            check_render_leaves_tree(ctx, doc, ts, case)
     ctx.ev()
     check_ast(ctx, text, {'text': text, 'token_set': 'Ast', 'source': source})
 
